@@ -724,7 +724,7 @@ def coq_crosscheck(ctx):
     bn = [t for t in pool if t[0]["case"]["fn"] == "bluenoise" and t[0].get("xin") and t[1].get("ok") == ["1"] and len(t[0]["trace"]) >= 2]
     # prefer runs in which something happens
     bn.sort(key=lambda t: -min(len(t[0]["samples"]), 6))
-    bn = pick(bn[:max(8, len(bn) // 2)], 6 if quick else 60)
+    bn = pick(bn[:max(8, len(bn) // 2)], 6 if quick else 40)
     nb = 0
     for n_, (r, o, more) in enumerate(bn):
         c = r["case"]
@@ -760,7 +760,7 @@ def coq_crosscheck(ctx):
         nb += 1
     hu = [t for t in pool if t[0]["case"]["fn"] == "hyperuniform" and t[0]["case"]["nx"] * t[0]["case"]["ny"] <= 60 and "keep" in t[1]]
     nh = 0
-    for n_, (r, o, more) in enumerate(pick(hu, 4 if quick else 40)):
+    for n_, (r, o, more) in enumerate(pick(hu, 4 if quick else 25)):
         c = r["case"]
         sc = r["sc"]
         pts = [(int(fr(p[0]) * sc), int(fr(p[1]) * sc)) for p in r["fin"]]
@@ -989,9 +989,11 @@ def evaluate_scripted(ctx, cases):
     for n_, r in enumerate(keep):
         if r["case"]["fn"] == "bluenoise":
             a, b, m = WINDOWS[n_ % len(WINDOWS)]
-            extra.append(("bw", n_, f"bw {hx(a)} {hx(b)} {hx(m)} " + r["line"][3:], (a, b, m)))
-            if len(r["line"]) < 6000:
-                extra.append(("bwneg", n_, f"bw 3 2 1 " + r["line"][3:], (3, 2, 1)))
+            # the windowed model divides big integers per (candidate, sample): every run in the quick tier, every third in the thorough one
+            if ctx.tier == "quick" or n_ % 3 == 0 or len(r["line"]) < 3000:
+                extra.append(("bw", n_, f"bw {hx(a)} {hx(b)} {hx(m)} " + r["line"][3:], (a, b, m)))
+                if len(r["line"]) < 6000:
+                    extra.append(("bwneg", n_, f"bw 3 2 1 " + r["line"][3:], (3, 2, 1)))
             if not r["partial"]:
                 toks = ["cl", hx(r["sc"]), hx(r["case"]["nx"]), hx(r["case"]["ny"]), str(len(r["samples"]))]
                 for x, y in r["samples"]:
